@@ -51,7 +51,7 @@ def gen(rng, tier):
                 yield {"family": "h2_header_list", "kind": "h2_header_list", "limit": limit, "size": max(1, size), "tag": n, "seed": rng.randrange(1 << 30)}
         # ---- keep_alive_max_requests ----------------------------------------------------------
         for limit in (1, 2, 3, 5):
-            for proto in ("h1", "h2"):
+            for proto in ("h1", "h2", "h2c"):
                 for pace in ("sequential", "burst"):
                     n += 1
                     yield {"family": "keepalive_max." + proto, "kind": "keepalive_max", "limit": limit, "proto": proto, "pace": pace,
@@ -62,7 +62,9 @@ def gen(rng, tier):
             for mr, jitter in ((1, 0), (3, 0), (2, 1), (2, 5)):
                 for k in range(1 if tier == "quick" else 8):
                     n += 1
-                    yield {"family": "max_requests", "kind": "max_requests", "backend": be, "max_requests": mr, "jitter": jitter, "tag": n, "rep": k}
+                    yield {"family": "max_requests", "kind": "max_requests", "backend": be, "max_requests": mr, "jitter": jitter, "tag": n, "rep": k, "how": "h1"}
+            n += 1
+            yield {"family": "max_requests.h2c", "kind": "max_requests", "backend": be, "max_requests": 2, "jitter": 0, "tag": n, "rep": 0, "how": "h2c"}
 
 
 def _tag_app(tag, delay=0, wait=None):
@@ -176,6 +178,18 @@ def run_one(case, tally):
                 client.append(["settle"])
                 c = {"config": {"keep_alive_max_requests": lim, "keep_alive_timeout": 5000}, "conn": {}, "apps": {"default": _tag_app(0), "by_tag": by_tag},
                      "client": client, "sched": {"seed": case["seed"]}, "horizon": 20.0}
+            elif case["proto"] == "h2c":
+                # the first request arrives as an HTTP/1.1 Upgrade: h2c and becomes stream 1; the others are streams 3, 5, ...
+                fb = FrameBuilder()
+                up = b"GET /t%d HTTP/1.1\r\nHost: h\r\nConnection: Upgrade, HTTP2-Settings\r\nUpgrade: h2c\r\nHTTP2-Settings: \r\n\r\n" % tags[0]
+                pre = client_preface(fb, {})
+                frames = [fb.headers(1 + 2 * i, [(b":method", b"GET"), (b":scheme", b"http"), (b":path", b"/t%d" % tg), (b":authority", b"h")], end_stream=True)
+                          for i, tg in enumerate(tags) if i > 0]
+                client = [["feed_nosettle", up], ["quiesce"]]
+                client += [["feed", pre + b"".join(frames)]] if case["pace"] == "burst" else [["feed", pre]] + [["feed", f] for f in frames]
+                client.append(["settle"])
+                c = {"config": {"keep_alive_max_requests": lim, "keep_alive_timeout": 5000}, "conn": {}, "apps": {"default": _tag_app(0), "by_tag": by_tag},
+                     "client": client, "reactor": {"kind": "h2", "credit": "auto", "skip_h1_101": True}, "sched": {"seed": case["seed"]}, "horizon": 20.0}
             else:
                 fb = FrameBuilder()
                 pre = client_preface(fb, {})
@@ -192,7 +206,7 @@ def run_one(case, tally):
                 continue
             tally.clause("keepalive-max")
             started = len(ob.instances())
-            allowed = lim if case["proto"] == "h1" else lim + 1
+            allowed = lim if case["proto"] == "h1" else lim + 1  # "one more on HTTP/2" (also when the connection was upgraded from h2c)
             if started > allowed:
                 findings.append({"clause": "keepalive-max", "sig": "C18.keepalive-max/exceeded/%s" % case["proto"], "backend": be,
                                  "detail": "%d requests were started on one connection with keep_alive_max_requests=%d (%s, %s)" % (started, lim, case["proto"], case["pace"])})
@@ -263,10 +277,17 @@ def _max_requests(case, tally):
             if s is None:
                 break
             try:
-                s.sendall(b"GET /t%d HTTP/1.1\r\nHost: h\r\nConnection: close\r\n\r\n" % i)
-                d, _ = recv_all(s, timeout=1.0)
-                if b" 200" in d[:15]:
-                    served += 1
+                if case.get("how") == "h2c":
+                    # every request of this run reaches the server as an h2c upgrade
+                    s.sendall(b"GET /t%d HTTP/1.1\r\nHost: h\r\nConnection: Upgrade, HTTP2-Settings\r\nUpgrade: h2c\r\nHTTP2-Settings: \r\n\r\n" % i)
+                    d, _ = recv_all(s, timeout=0.4)
+                    if d.startswith(b"HTTP/1.1 101"):
+                        served += 1
+                else:
+                    s.sendall(b"GET /t%d HTTP/1.1\r\nHost: h\r\nConnection: close\r\n\r\n" % i)
+                    d, _ = recv_all(s, timeout=1.0)
+                    if b" 200" in d[:15]:
+                        served += 1
             except OSError:
                 pass
             finally:
